@@ -25,53 +25,57 @@ E1_accounts == SG("accounts", <<
   Obj("Query", <<>>, <<>>, << F("me", Ty("User")),
                               FA("user", Ty("User"), "id", NN(TID)),
                               F("users", NN(Li(NN(Ty("User"))))) >>),
-  Obj("User", <<Key(<<FS("id")>>)>>, <<>>, << F("id", NN(TID)), F("name", NN(TStr)), F("nick", TStr) >>) >>)
+  Obj("User", <<Key(<<FS("id")>>)>>, <<>>, << F("id", NN(TID)), F("name", NN(TStr)), F("nick", TStr),
+                                             FA("greeting", TStr, "lang", TStr) >>) >>)      \* optional argument on an entity field
 E1_reviews == SG("reviews", <<
   Obj("Query", <<>>, <<>>, << F("topReviews", Li(Ty("Review"))) >>),
   Obj("User", <<Key(<<FS("id")>>)>>, <<>>, << F("id", NN(TID)), F("reviews", Li(NN(Ty("Review")))) >>),
   Obj("Review", <<>>, <<>>, << F("body", NN(TStr)), F("stars", TInt), F("author", Ty("User")) >>) >>)
 
 E1_userFn == Fn("id", <<Case(Str("1"), Ref("u1")), Case(Str("2"), Ref("u2"))>>, Null)
+E1_greet(n) == Fn("lang", <<Case(Str("en"), Str("hi " \o n)), Case(Str("de"), Str("hallo " \o n))>>, Str("hey " \o n))
 E1_U1 == Uv("all-present", <<
   O("Q", "Query", [me |-> Ref("u1"), user |-> E1_userFn, users |-> Lst(<<Ref("u1"), Ref("u2")>>),
                    topReviews |-> Lst(<<Ref("r1"), Ref("r2"), Ref("r1")>>)]),
-  O("u1", "User", [id |-> Str("1"), name |-> Str("Ann"), nick |-> Str("an"), reviews |-> Lst(<<Ref("r1"), Ref("r2")>>)]),
-  O("u2", "User", [id |-> Str("2"), name |-> Str("Bob"), nick |-> Str("bo"), reviews |-> Lst(<<Ref("r2")>>)]),
+  O("u1", "User", [id |-> Str("1"), greeting |-> E1_greet("Ann"), name |-> Str("Ann"), nick |-> Str("an"), reviews |-> Lst(<<Ref("r1"), Ref("r2")>>)]),
+  O("u2", "User", [id |-> Str("2"), greeting |-> E1_greet("Bob"), name |-> Str("Bob"), nick |-> Str("bo"), reviews |-> Lst(<<Ref("r2")>>)]),
   O("r1", "Review", [body |-> Str("good"), stars |-> Num(5), author |-> Ref("u1")]),
   O("r2", "Review", [body |-> Str("bad"), stars |-> Num(1), author |-> Ref("u2")]) >>)
 E1_U2 == Uv("nullable-nulls", <<
   O("Q", "Query", [me |-> Null, user |-> E1_userFn, users |-> Lst(<<Ref("u1"), Ref("u2")>>),
                    topReviews |-> Lst(<<Ref("r1"), Null, Ref("r2")>>)]),
-  O("u1", "User", [id |-> Str("1"), name |-> Str("Ann"), nick |-> Null, reviews |-> Null]),
-  O("u2", "User", [id |-> Str("2"), name |-> Str("Bob"), nick |-> Str("bo"), reviews |-> Lst(<<Ref("r1")>>)]),
+  O("u1", "User", [id |-> Str("1"), greeting |-> E1_greet("Ann"), name |-> Str("Ann"), nick |-> Null, reviews |-> Null]),
+  O("u2", "User", [id |-> Str("2"), greeting |-> E1_greet("Bob"), name |-> Str("Bob"), nick |-> Str("bo"), reviews |-> Lst(<<Ref("r1")>>)]),
   O("r1", "Review", [body |-> Str("good"), stars |-> Null, author |-> Null]),
   O("r2", "Review", [body |-> Str("bad"), stars |-> Num(1), author |-> Ref("u1")]) >>)
 E1_U3 == Uv("null-in-nonnull", <<
   O("Q", "Query", [me |-> Ref("u1"), user |-> E1_userFn, users |-> Lst(<<Ref("u1"), Ref("u2")>>),
                    topReviews |-> Lst(<<Ref("r1"), Ref("r2")>>)]),
-  O("u1", "User", [id |-> Str("1"), name |-> Str("Ann"), nick |-> Str("an"), reviews |-> Lst(<<Ref("r1"), Ref("r2")>>)]),
-  O("u2", "User", [id |-> Str("2"), name |-> Null, nick |-> Str("bo"), reviews |-> Lst(<<Ref("r1")>>)]),
+  O("u1", "User", [id |-> Str("1"), greeting |-> E1_greet("Ann"), name |-> Str("Ann"), nick |-> Str("an"), reviews |-> Lst(<<Ref("r1"), Ref("r2")>>)]),
+  O("u2", "User", [id |-> Str("2"), greeting |-> E1_greet("Bob"), name |-> Null, nick |-> Str("bo"), reviews |-> Lst(<<Ref("r1")>>)]),
   O("r1", "Review", [body |-> Str("good"), stars |-> Num(5), author |-> Ref("u2")]),
   O("r2", "Review", [body |-> Null, stars |-> Num(1), author |-> Ref("u1")]) >>)
 E1_U4 == Uv("empty-lists", <<
   O("Q", "Query", [me |-> Ref("u1"), user |-> E1_userFn, users |-> Lst(<<>>), topReviews |-> Lst(<<>>)]),
-  O("u1", "User", [id |-> Str("1"), name |-> Str("Ann"), nick |-> Str("an"), reviews |-> Lst(<<>>)]),
-  O("u2", "User", [id |-> Str("2"), name |-> Str("Bob"), nick |-> Null, reviews |-> Lst(<<>>)]) >>)
+  O("u1", "User", [id |-> Str("1"), greeting |-> E1_greet("Ann"), name |-> Str("Ann"), nick |-> Str("an"), reviews |-> Lst(<<>>)]),
+  O("u2", "User", [id |-> Str("2"), greeting |-> E1_greet("Bob"), name |-> Str("Bob"), nick |-> Null, reviews |-> Lst(<<>>)]) >>)
 
 E1 == Entry("basic", <<E1_accounts, E1_reviews>>, <<E1_U1, E1_U2, E1_U3, E1_U4>>,
-  << Menu("Query.user", << <<Arg("id", Str("1"))>>, <<Arg("id", Str("2"))>>, <<Arg("id", Str("9"))>>, <<Arg("id", Var("id"))>> >>) >>,
-  << VarM("id", NN(TID), <<Str("1"), Str("2")>>) >>,
+  << Menu("Query.user", << <<Arg("id", Str("1"))>>, <<Arg("id", Str("2"))>>, <<Arg("id", Str("9"))>>, <<Arg("id", Var("id"))>> >>),
+     Menu("User.greeting", << <<>>, <<Arg("lang", Str("de"))>>, <<Arg("lang", Var("lang"))>> >>) >>,
+  << VarM("id", NN(TID), <<Str("1"), Str("2")>>), VarM("lang", TStr, <<Str("en"), Str("xx")>>) >>,
   << Op(Doc(<< Fo("me", <<Fl("id"), Fl("name"), Fo("reviews", <<Fl("body"), Fo("author", <<Fl("name"), Fl("nick")>>)>>)>>) >>, <<>>, <<>>), <<>>),
      Op(Doc(<< Fo("topReviews", <<Fl("stars"), Fo("author", <<Fl("name"), Fo("reviews", <<Fl("body")>>)>>)>>),
                Fo("users", <<Fl("nick"), Fl("__typename"), Fo("reviews", <<Fl("body")>>)>>) >>, <<>>, <<>>), <<>>),
+     Op(Doc(<< Fo("topReviews", <<Fo("author", <<Field("greeting", "", <<Arg("lang", Str("de"))>>, <<>>, <<>>), Field("greeting", "g", <<>>, <<>>, <<>>)>>)>>) >>, <<>>, <<>>), <<>>),
      Op(Doc(<< Field("user", "", <<Arg("id", Var("id"))>>, <<>>, <<Fl("name"), Fo("reviews", <<Fl("stars")>>)>>),
                Field("user", "x", <<Arg("id", Str("9"))>>, <<Dir("skip", Var("s"))>>, <<Fl("name")>>) >>, <<>>,
             <<VarDef("id", NN(TID), Absent), VarDef("s", NN(TBool), Absent)>>), <<Bind("id", Str("2")), Bind("s", Bool(FALSE))>>) >>)
 \* negative control for FedNondet: keys are not unique (u2 has the id of u1)
 E1_broken == Uv("duplicate-key", <<
   O("Q", "Query", [me |-> Ref("u2"), users |-> Lst(<<Ref("u1"), Ref("u2")>>), topReviews |-> Lst(<<Ref("r1")>>)]),
-  O("u1", "User", [id |-> Str("1"), name |-> Str("Ann"), nick |-> Str("an"), reviews |-> Lst(<<Ref("r1")>>)]),
-  O("u2", "User", [id |-> Str("1"), name |-> Str("Bob"), nick |-> Str("bo"), reviews |-> Lst(<<>>)]),
+  O("u1", "User", [id |-> Str("1"), greeting |-> E1_greet("Ann"), name |-> Str("Ann"), nick |-> Str("an"), reviews |-> Lst(<<Ref("r1")>>)]),
+  O("u2", "User", [id |-> Str("1"), greeting |-> E1_greet("Bob"), name |-> Str("Bob"), nick |-> Str("bo"), reviews |-> Lst(<<>>)]),
   O("r1", "Review", [body |-> Str("good"), stars |-> Num(5), author |-> Ref("u2")]) >>)
 
 \* ============================================================================ E2 "keys"
